@@ -223,9 +223,30 @@ def rule_r3_r4(ctx):
     for name in FACTORIES:
         fac = repo.func(f"{WR}:{name}")
         w = _wrapper_of(fac)
-        ctx.require(w is not None, f"{name}: nested wrapper not found")
         orig_param = next((p for p in fac.params if p.startswith("original_")), None)
         ctx.require(orig_param is not None, f"{name}: original_* parameter not found")
+        if w is None:
+            # a factory may be a thin front of another factory: `return <factory>(<original>, …)` hands the original over
+            # unchanged and the wrapper obligations are those of the factory it delegates to (examined under its own name)
+            body = [s_ for s_ in fac.node.body if not (isinstance(s_, ast.Expr) and isinstance(s_.value, ast.Constant))]
+            dele = None
+            if len(body) == 1 and isinstance(body[0], ast.Return) and isinstance(body[0].value, ast.Call):
+                c = body[0].value
+                tg = repo.find_func(f"{WR}:{dotted_of(c.func)}") if dotted_of(c.func) else None
+                if tg is not None and _wrapper_of(tg) is not None:
+                    tp = next((p_ for p_ in tg.params if p_.startswith("original_")), None)
+                    passed = None
+                    if tp is not None:
+                        i = tg.params.index(tp)
+                        passed = c.args[i] if i < len(c.args) else next((k.value for k in c.keywords if k.arg == tp), None)
+                    if passed is not None and norm(passed) == orig_param:
+                        dele = tg
+            ctx.require(dele is not None, f"{name}: nested wrapper not found")
+            ctx.check("R3", f"{name}: delegates to {dele.local} with the original handed over unchanged", dele.name in FACTORIES, fac, fac.node,
+                      f"{name} builds its wrapper through {dele.local}, which is not one of the examined wrapper factories",
+                      how="`return <factory>(<original>, …)`: the wrapper obligations are the delegate's")
+            ctx.ob("R4", f"{name}: records through the wrapper of {dele.local}", True, nontrivial=False, how="delegation (see R3)")
+            continue
         ocalls = [c for c in calls_in(w) if isinstance(c.func, ast.Name) and c.func.id == orig_param]
         cfg = CFG(w.node)
         # exactly once on every path
@@ -278,7 +299,8 @@ def rule_r3_r4(ctx):
             ctx.check("R4", f"{name}: record after the original completes", ok, w, r,
                       "the operation is journaled before the wrapped call runs, so a rejected (raising) "
                       "call still leaves an entry",
-                      how="original call dominates journal.record in the wrapper's CFG")
+                      how="original call dominates journal.record in the wrapper's CFG",
+                      construct="journal.record precedes the call of the original")
 
 
 def _anc(node, stop):
